@@ -207,6 +207,27 @@ def r2_split(ctx):
             reach = body.reachable(w[1])
             r.check(any(l in reach for l in latches), "split/%s/on-kept-path" % fld, "write of %s at bb%d leads to the latch" % (fld, w[1]),
                     "write of %s at bb%d cannot reach the latch (effects on a rejected path)" % (fld, w[1]), body.where(w[1], w[2]))
+    # … and every kept iteration performs them: no path from the loop body's entry to a latch avoids the write of either field
+    entry = q.loop_entry(body, h, lblocks)
+    for fld in ("tips", "fee_pool"):
+        wb = sorted({w[1] for (w, d) in deltas.get(fld, [])})
+        if not wb or entry is None:
+            continue
+        wo = body.reachable(entry, removed=wb) if entry not in wb else set()
+        if any(l in wo for l in latches):
+            # a skip is harmless when it is taken only if the credited amount is zero: force every `amount ⋚ 0` test to "amount > 0"
+            want = {"tips": exp_tips, "fee_pool": exp_pool}[fld]
+            tbl = {}
+            for ae, canon, abi in q.cmp_atoms(body):
+                op, L, R = q.as_cmp(ae)
+                for (x, k, o) in ((L, R, op), (R, L, q.SWAP[op])):
+                    if q.const_val(k) == 0 and q.lin(x, key) == want:
+                        tbl[ae] = {"Gt": 1, "Ge": 1, "Ne": 1, "Lt": 0, "Le": 0, "Eq": 0}[o]
+            if tbl:
+                f = q.force(body, tbl)
+                wo = f.reach_from(entry, avoid=wb)
+        r.check(not any(l in wo for l in latches), "split/%s/every-kept-tx" % fld, "every accepted transaction's fee reaches %s" % fld,
+                "an accepted transaction can finish the iteration without %s being credited (its fee, or part of it, vanishes)" % fld, body.where(wb[0]))
 
 
 def r3_reward(ctx):
